@@ -17,24 +17,31 @@ Inductive leaf :=
 | EthTx (from : addr) (nonce : nat) (gas price value : Z)
     (* MsgEthereumTx whose signature recovers to [from]; plain transfer of [value] (unibi); gas price in unibi/gas *)
 | Send (from : addr)                           (* bank MsgSend of 1 unibi to a sink account *)
-| Grant (granter grantee : addr) (k : mkind).  (* authz MsgGrant with a GenericAuthorization *)
+| Grant (granter grantee : addr) (k : mkind)   (* authz MsgGrant with a GenericAuthorization *)
+| EthTxAs (claimed : addr) (from : addr) (nonce : nat) (gas price value : Z).
+    (* the same MsgEthereumTx (signature recovers to [from]) whose unsigned `From` field is filled with [claimed] *)
 
 Definition K_ETH := 0%nat.
 Definition K_SEND := 1%nat.
 Definition K_GRANT := 2%nat.
 
-Definition leaf_signer (l : leaf) : addr :=
-  match l with EthTx a _ _ _ _ => a | Send a => a | Grant a _ _ => a end.
+(** MsgEthereumTx.GetSigners: the address recovered from the Ethereum signature — or, if the code read the
+    unsigned `From` field instead ([recovered = false]), whatever the sender of the bytes wrote there *)
+Definition leaf_signer (recovered : bool) (l : leaf) : addr :=
+  match l with
+  | EthTx a _ _ _ _ => a | Send a => a | Grant a _ _ => a
+  | EthTxAs cl a _ _ _ _ => if recovered then a else cl
+  end.
 Definition leaf_kind (l : leaf) : nat :=
-  match l with EthTx _ _ _ _ _ => K_ETH | Send _ => K_SEND | Grant _ _ _ => K_GRANT end.
-Definition is_eth_leaf (l : leaf) : bool := match l with EthTx _ _ _ _ _ => true | _ => false end.
+  match l with EthTx _ _ _ _ _ | EthTxAs _ _ _ _ _ _ => K_ETH | Send _ => K_SEND | Grant _ _ _ => K_GRANT end.
+Definition is_eth_leaf (l : leaf) : bool := match l with EthTx _ _ _ _ _ | EthTxAs _ _ _ _ _ _ => true | _ => false end.
 
 Definition msg := tree leaf.
 Definition is_eth_msg (t : msg) : bool := match t with Leaf l => is_eth_leaf l | _ => false end.
 
 Definition leaf_basic (l : leaf) : bool :=
   match l with
-  | EthTx _ _ gas price value => (0 <=? gas) && (0 <=? price) && (0 <=? value)
+  | EthTx _ _ gas price value | EthTxAs _ _ _ gas price value => (0 <=? gas) && (0 <=? price) && (0 <=? value)
   | Send _ => true
   | Grant a b _ => negb (Nat.eqb a b)
   end.
@@ -89,7 +96,8 @@ Record world := {
     fee collector — it ASSUMES the ante handler charged gas × price and checked the nonce *)
 Definition leaf_run (w : world) (s : st) (l : leaf) : option st :=
   match l with
-  | EthTx from nonce gas price value =>
+  | EthTx from nonce gas price value | EthTxAs _ from nonce gas price value =>
+      (* the msg server recovers the sender from the signature itself; the `From` field plays no role *)
       if gas <? GAS_TRANSFER then None                     (* intrinsic gas too low: the message fails *)
       else if bal_of s from <? value then None
       else let refund := (gas - GAS_TRANSFER) * price in
@@ -108,11 +116,13 @@ Record cfg := {
   other_decodable : bool;   (* some extension option besides the EVM one is registered with the codec *)
   (* non-EVM chain *)
   g_prevent : bool;         (* AnteDecoratorPreventEtheruemTxMsgs active: rejects a top-level MsgEthereumTx *)
-  g_authz : bool;           (* AnteDecoratorAuthzGuard active: rejects MsgExec directly carrying MsgEthereumTx and generic grants for it *)
+  g_authz : bool;           (* AnteDecoratorAuthzGuard active: rejects generic grants for MsgEthereumTx *)
+  g_authz_exec : bool;      (* … and MsgExec directly carrying MsgEthereumTx *)
   g_authz_rec : bool;       (* … at any depth *)
   vb_on : bool;
   sig_on : bool;            (* SetPubKey + SigVerification: every message signer signed, pubkey.Address() = signer *)
   sig_accepts_eth : bool;   (* the installed SigGasConsumer accepts eth_secp256k1 keys *)
+  signer_recovered : bool;  (* MsgEthereumTx.GetSigners recovers the signer from the signature (never reads `From`) *)
   fee_on : bool;
   seq_on : bool;
   (* EVM chain *)
@@ -137,23 +147,23 @@ Fixpoint authz_guard_inner (t : msg) : bool :=   (* used only when the guard rec
 Definition authz_guard_rejects (c : cfg) (t : msg) : bool :=
   match t with
   | Leaf (Grant _ _ (MKLeaf k)) => Nat.eqb k K_ETH
-  | Exec _ cs => if g_authz_rec c then existsb authz_guard_inner cs else existsb is_eth_msg cs
+  | Exec _ cs => if g_authz_exec c then (if g_authz_rec c then existsb authz_guard_inner cs else existsb is_eth_msg cs) else false
   | _ => false
   end.
 
 (** wasmext.handleSdkMessage on one dispatched message *)
 Definition wasm_admits (c : cfg) (ctr : addr) (t : msg) : bool :=
-  (negb (wasm_signer c) || Nat.eqb (signer leaf leaf_signer t) ctr) && negb (wasm_no_eth c && is_eth_msg t).
+  (negb (wasm_signer c) || Nat.eqb (signer leaf (leaf_signer (signer_recovered c)) t) ctr) && negb (wasm_no_eth c && is_eth_msg t).
 
 Definition run_msg (c : cfg) (w : world) : msg -> st -> option st :=
-  run leaf leaf_signer leaf_kind st leaf_basic (leaf_run w) granted (w_reflects w) (wasm_admits c) (w_gov w)
+  run leaf (leaf_signer (signer_recovered c)) leaf_kind st leaf_basic (leaf_run w) granted (w_reflects w) (wasm_admits c) (w_gov w)
       (w_ica_acct w) (w_ica_allow w).
 
 Definition run_msgs (c : cfg) (w : world) (ms : list msg) (s : st) : option st :=
   seq_opt (run_msg c w) (fun _ _ => true) ms s.
 
 Definition basic_msg : msg -> bool := basic leaf leaf_basic.
-Definition signer_msg : msg -> addr := signer leaf leaf_signer.
+Definition signer_msg (c : cfg) : msg -> addr := signer leaf (leaf_signer (signer_recovered c)).
 
 (** ---------------------------------------------------------------- transactions *)
 Inductive key_kind := KCosmos | KEth | KNone.   (* key type that signed the Cosmos tx; KNone: no signatures *)
@@ -182,7 +192,7 @@ Definition nonevm_ante (c : cfg) (w : world) (s : st) (x : tx) : option st :=
      && negb (g_prevent c && existsb is_eth_msg (t_msgs x))
      && negb (g_authz c && existsb (authz_guard_rejects c) (t_msgs x))
      && (if vb_on c then forallb basic_msg (t_msgs x) else true)
-     && (if sig_on c then key_ok c w x && forallb (fun m => Nat.eqb (signer_msg m) (t_signer x)) (t_msgs x) else true)
+     && (if sig_on c then key_ok c w x && forallb (fun m => Nat.eqb (signer_msg c m) (t_signer x)) (t_msgs x) else true)
      && (if fee_on c then t_fee x <=? bal_of s (t_signer x) else true)
   then
     let s1 := if fee_on c then add_fee (add_bal s (t_signer x) (- t_fee x)) (t_fee x) else s in
@@ -251,18 +261,20 @@ Definition guard_active (chain : list string) (name : string) (g : guard) (needs
   mem name chain && g_found g && g_rejects g && forallb (fun t => mem t (g_tests g)) needs.
 
 Definition cfg_of_facts (nonevm evm : list string) (x : ext_facts) (gp ga : guard) (wh : wasm_facts)
-           (sgc : string) (registered_ext : list string) : cfg :=
+           (sgc : string) (registered_ext : list string) (eth_signers_recovered : bool) : cfg :=
   {| nonevm_known := match route_of x NoExt with RouteNonEVM => true | _ => false end;
      evm_route := route_of x EvmExt;
      other_route := route_of x OtherExt;
      other_decodable := negb (forallb (String.eqb "ExtensionOptionsEthereumTx") registered_ext);
      g_prevent := guard_active nonevm N_PREVENT_ETH gp [T_ETH];
-     g_authz := guard_active nonevm N_AUTHZ_GUARD ga [T_ETH; T_EXEC; T_GRANT] && g_into_exec ga;
+     g_authz := guard_active nonevm N_AUTHZ_GUARD ga [T_ETH; T_GRANT];
+     g_authz_exec := mem T_EXEC (g_tests ga) && g_into_exec ga;
      g_authz_rec := g_recursive ga;
      vb_on := mem N_VALIDATE_BASIC nonevm;
      sig_on := mem N_SET_PUBKEY nonevm && mem N_SIG_VERIFY nonevm;
      (* eth_secp256k1 keys are turned away by DefaultSigVerificationGasConsumer inside SigGasConsumeDecorator *)
      sig_accepts_eth := negb (mem N_SIG_GAS nonevm && String.eqb sgc "DefaultSigVerificationGasConsumer");
+     signer_recovered := eth_signers_recovered;
      fee_on := mem N_DEDUCT_FEE nonevm;
      seq_on := mem N_INCR_SEQ nonevm;
      e_vb := mem N_ETH_VALIDATE_BASIC evm;
@@ -276,7 +288,7 @@ Definition cfg_of_facts (nonevm evm : list string) (x : ext_facts) (gp ga : guar
 (** the committed code *)
 Definition cfg_current : cfg :=
   {| nonevm_known := true; evm_route := RouteEVM; other_route := RouteReject; other_decodable := false;
-     g_prevent := true; g_authz := true; g_authz_rec := false; vb_on := true; sig_on := true; sig_accepts_eth := false;
+     g_prevent := true; g_authz := true; g_authz_exec := true; g_authz_rec := false; vb_on := true; sig_on := true; sig_accepts_eth := false; signer_recovered := true;
      fee_on := true; seq_on := true; e_vb := true; e_sig := true; e_acc := true; e_gas := true; e_seq := true;
      wasm_signer := true; wasm_no_eth := true |}.
 
